@@ -29,7 +29,7 @@ REAL = ["rpyc.core.protocol.Connection (_box/_unbox/proxy cache/_netref_factory)
 STUB = ["sockets/poll/time/locks (simulator)"]
 ASSUMPTIONS = ["the classifier 'exact type is one of the plain value types, recursively' is what the statement says", "proxy liveness is observed "
                "through weak references"]
-PROBES = ["c03:re-receive-alive", "c03:re-receive-dropped", "c03:double-async-send", "c03:mutate", "c03:obtain", "c03:deliver", "c03:subclass-by-ref", "c03:relend-crossing-release", "c03:module-replaced-under-its-name"]
+PROBES = ["c03:re-receive-alive", "c03:re-receive-dropped", "c03:double-async-send", "c03:mutate", "c03:obtain", "c03:deliver", "c03:subclass-by-ref", "c03:relend-crossing-release", "c03:module-replaced-under-its-name", "c03:obtain-mixed-tuple"]
 D2_SIG = "UnicodeEncodeError on lone surrogate"
 
 PLAIN = (int, bool, float, complex, str, bytes, type(None), type(NotImplemented), type(Ellipsis))
@@ -506,6 +506,34 @@ def run_one(choices, params):
                 del r
             elif op == "copy" and conf == "classic":
                 from rpyc.utils import classic
+                mixed = [i for i, (kd, o) in enumerate(pools["B"]) if kd == "mixed"]
+                if mixed and w.draw(3) == 0:
+                    # obtain() of a tuple that mixes values and references: the result is a local copy all the way down
+                    i = mixed[w.draw(len(mixed))]
+                    o = pools["B"][i][1]
+                    t = rootbox[0].get(i)
+                    cp = classic.obtain(t)
+                    sim.count("c03:obtain-mixed-tuple")
+
+                    def no_proxy(x):
+                        if is_proxy(x):
+                            return False
+                        if type(x) in (tuple, list):
+                            return all(no_proxy(e) for e in x)
+                        return True
+                    if type(cp) is not tuple or not no_proxy(cp):
+                        raise core.Violation("copy-not-independent", "obtain() of the mixed tuple %r still holds references: %r" % (
+                            o, [type(e).__name__ for e in cp] if type(cp) is tuple else type(cp).__name__))
+                    if cp[0] != o[0] or type(cp[1]).__name__ != "Thing" or cp[1].n != o[1].n or cp[2] != o[2]:
+                        raise core.Violation("copy-not-independent", "obtain() of %r gave %r" % (o, cp))
+                    before = (list(o[1].marks), list(o[2][1]))
+                    cp[1].marks.append("local")
+                    cp[2][1].append("local")
+                    if (list(o[1].marks), list(o[2][1])) != before:
+                        raise core.Violation("copy-not-independent", "changing the obtained copy of a mixed tuple changed the owner's objects")
+                    del t, cp
+                    info["states"].add("obtain-mixed")
+                    return
                 cands = [i for i, (kd, o) in enumerate(pools["B"]) if kd == "mutable" and not isinstance(o, collections.deque)]
                 if cands and w.draw(2):
                     i = cands[w.draw(len(cands))]
